@@ -6,7 +6,10 @@ import json, os, subprocess, sys
 ROOT = os.path.dirname(os.path.dirname(os.path.abspath(__file__)))
 REPO = os.path.join(os.path.dirname(ROOT), "repo") if os.path.isdir(os.path.join(os.path.dirname(ROOT), "repo", "contracts")) else "/repo"
 checks = [c["property_id"] for c in json.load(open(os.path.join(ROOT, "MANIFEST.json")))["checks"]]
-only = sys.argv[1].split(",") if len(sys.argv) > 1 else None
+args = [a for a in sys.argv[1:]]
+if "--checks" in args:  # restrict the checks run per change (partial re-runs after one check changed)
+    i = args.index("--checks"); checks = args[i + 1].split(","); del args[i:i + 2]
+only = args[0].split(",") if args else None
 D = os.path.join(ROOT, "benign_seeded")
 def clean():
     subprocess.run(["git", "-C", REPO, "checkout", "--", "."], check=True)
@@ -32,7 +35,7 @@ try:
         res.append({"id": name, "fired": fired, "unexpected": unexpected})
 finally:
     clean()
-rp = os.path.join(D, "last_results.json")
+rp = os.path.join(D, "last_results.json" if "--checks" not in sys.argv else "last_results_partial.json")
 if only and os.path.exists(rp):
     prev = {r["id"]: r for r in json.load(open(rp))}
     prev.update({r["id"]: r for r in res})
